@@ -482,14 +482,15 @@ C04_FreshVersion ==
 C04_NoPanic == ~panic
 
 \* C05 -- single writer
+ActN == IF "n" \in DOMAIN LastAct THEN LastAct.n ELSE ""
 C05_OwnUntouched ==
   [][ Resetting \/ \A n \in Node :
         LET c1 == st[n].ns[n]  c2 == st'[n].ns[n] IN
-        /\ (LastAct.a \in {"Process", "Liveness", "Catchup", "CreateSyn", "Lose", "Advance", "Heartbeat"}
-             \/ LastAct.n # n) => (c2.kv = c1.kv /\ c2.max = c1.max /\ c2.gc = c1.gc)
-        /\ (LastAct.a = "Gc" /\ LastAct.n = n) => (c2.max = c1.max /\ c2.gc >= c1.gc)
+        /\ (LastAct.a \notin {"Set", "SetTtl", "Delete", "DeleteTtl", "Gc"} \/ ActN # n) =>
+              (c2.kv = c1.kv /\ c2.max = c1.max /\ c2.gc = c1.gc)
+        /\ (LastAct.a = "Gc" /\ ActN = n) => (c2.max = c1.max /\ c2.gc >= c1.gc)
         /\ c2.hb - c1.hb \in {0, 1}
-        /\ (c2.hb # c1.hb) => (LastAct.a \in {"Process", "Heartbeat"} /\ LastAct.n = n) ]_<<vars, hist>>
+        /\ (c2.hb # c1.hb) => (LastAct.a \in {"Process", "Heartbeat", "Inject", "Recv"} /\ ActN = n) ]_<<vars, hist>>
 C05_OwnerAhead ==
   \A p \in Copies : LET c == st[p[1]].ns[p[2]]  o == Own(p[2]) IN
      c.max <= o.max /\ (c.gc <= o.gc \/ c.gc <= o.max)
